@@ -61,7 +61,7 @@ type assumption struct {
 	// typeTest decides a comma-ok type assertion (ok result), if it can
 	typeTest func(fn *ssa.Function, ta *ssa.TypeAssert, bound map[*ssa.Parameter]string) (abool, bool)
 	// bind tells which role an argument value plays at a call site (so that the callee's parameter gets that role)
-	bind  func(fn *ssa.Function, arg ssa.Value, bound map[*ssa.Parameter]string) string
+	bind func(fn *ssa.Function, arg ssa.Value, bound map[*ssa.Parameter]string) string
 	// ignoreRet (optional): returns that are outside the question asked (e.g. behind a divisor-zero test); they are left out of call summaries
 	ignoreRet func(fn *ssa.Function, ret *ssa.Return) bool
 	depth     int
